@@ -11,7 +11,7 @@ import (
 // C13.K0 on whole files: one byte inside the body of a data or dictionary page
 // of a real file is changed by an arbitrary non-zero mask (every position of
 // every page body by case split, the mask symbolic); every way of reading rows
-// that touches the page returns an error wrapping ErrCorrupted, none returns
+// that touches the page (also across row groups) returns an error wrapping ErrCorrupted, none returns
 // rows and none panics: sequential generic reads, reads after a seek (which
 // load the dictionary lazily) and the row reader of the row group.
 
@@ -48,9 +48,14 @@ func VerifH_C13_wholeFileCorruption() {
 	if vChoose("v1", 0, 1) == 1 {
 		opts = append(opts, DataPageVersion(1))
 	}
-	smallPages := vChoose("smallPages", 0, 1) == 1
-	if smallPages {
+	smallPages := false
+	switch vChoose("layout", 0, 2) {
+	case 1:
+		smallPages = true
 		opts = append(opts, PageBufferSize(1))
+	case 2: // one row per row group: the file-level readers chain the row groups
+		smallPages = true
+		opts = append(opts, MaxRowsPerRowGroup(1))
 	}
 	buf := new(bytes.Buffer)
 	if err := verifWriteH(buf, rows, opts, false); err != nil {
@@ -101,8 +106,8 @@ func VerifH_C13_wholeFileCorruption() {
 			}
 		}
 		r.Close()
-	case 2: // row reader of the row group
-		rr := f.RowGroups()[0].Rows()
+	case 2: // row reader over the row groups
+		rr := MultiRowGroup(f.RowGroups()...).Rows() // all row groups, chained
 		out := make([]Row, len(rows)+1)
 		n, err := rr.ReadRows(out)
 		vAssert(corrupted(err), "row group rows report the corruption")
